@@ -191,10 +191,10 @@ def errStatus : Err → Nat
 /-- ranged reads of plain keys are repeated by the harness through `S3Service::call`; this is what the HTTP layer
     must show for an answer: status (206 exactly when `Content-Range` is present), `Content-Range`, `Content-Length`, body -/
 def viaHttp : Op → Bool
-  | .getObject _ k (some r) =>
+  | .getObject _ k (some _) =>
     keyOk k && (match keyPath k with
       | some p => joinWith [slash] p == k
-      | none => false) && r != .suffix 18446744073709551615
+      | none => false)
   | _ => false
 
 def httpPart (r : Resp) : String :=
